@@ -103,9 +103,15 @@ func eval1(c Case) (evid.Verdict, bool) {
 			return evid.Fail("harness", "reference: %v", err)
 		}
 		sigv := fmt.Sprintf("value:cksum%d:%s", c.Ck, usageClass(c.Usage))
-		got, err := et.GetChecksumHash(key, data, c.Usage)
+		// the data is the front of a longer buffer filled with a pattern: nothing behind it, and nothing in it, may change
+		dbuf := append(append(make([]byte, 0, len(data)+48), data...), bytes.Repeat([]byte{0xa5}, 48)...)
+		kb0 := append([]byte{}, key...)
+		got, err := et.GetChecksumHash(key, dbuf[:len(data)], c.Usage)
 		if err != nil {
 			return evid.Fail(sigv, "GetChecksumHash failed: %v", err)
+		}
+		if !bytes.Equal(dbuf[:len(data)], data) || !bytes.Equal(dbuf[len(data):], bytes.Repeat([]byte{0xa5}, 48)) || !bytes.Equal(kb0, key) {
+			return evid.Fail(fmt.Sprintf("input-modified:cksum%d", c.Ck), "GetChecksumHash changed the key or data buffer it was given, or wrote behind the data slice")
 		}
 		if !bytes.Equal(got, want) {
 			return evid.Fail(sigv, "GetChecksumHash = %x, RFC value %x", got, want)
@@ -159,7 +165,11 @@ func eval1(c Case) (evid.Verdict, bool) {
 		default:
 			return evid.Fail("harness", "bad variant %q", c.Variant)
 		}
+		kb, db, pb := append([]byte{}, vkey...), append([]byte{}, vdata...), append([]byte{}, pres...)
 		ok := et.VerifyChecksum(vkey, vdata, pres, vusage)
+		if !bytes.Equal(kb, vkey) || !bytes.Equal(db, vdata) || !bytes.Equal(pb, pres) {
+			return evid.Fail(fmt.Sprintf("input-modified:cksum%d", c.Ck), "VerifyChecksum changed the key, data or checksum buffer it was given")
+		}
 		if ok != expect {
 			return evid.Fail(sig, "VerifyChecksum(%s presentation %x; correct %x) = %v, want %v", c.Variant, pres, want, ok, expect)
 		}
